@@ -196,8 +196,16 @@ impl fmt::Display for HumanFloatCount {
             // With a precision of 0 there is no '.': `num` is the (rounded) integer part
             None => (num.clone(), ""),
         };
-        let len = int_part.len();
-        for (idx, c) in int_part.chars().enumerate() {
+        // The sign is not a digit: keep it out of the grouping
+        let digits = match int_part.strip_prefix('-') {
+            Some(digits) => {
+                f.write_char('-')?;
+                digits
+            }
+            None => int_part.as_str(),
+        };
+        let len = digits.len();
+        for (idx, c) in digits.chars().enumerate() {
             let pos = len - idx - 1;
             f.write_char(c)?;
             if pos > 0 && pos % 3 == 0 {
